@@ -233,6 +233,10 @@ func checkAlteration(c altCase, r *h.Rec) error {
 		}
 		nPos++
 		inSigned := (pos >= so.tbsOff && pos < so.tbsEnd) || (pos >= so.sigOff && pos < so.sigEnd)
+		// Certificates and revocation lists repeat the algorithm identifier inside
+		// the signed part and the parsers promise to refuse a pair that differs
+		// ("inner and outer signature algorithm identifiers don't match").
+		inOuterAlg := (c.Obj == altCert || c.Obj == altCRL) && pos >= so.algOff && pos < so.algEnd
 		for _, v := range substitutions(der[pos], c.Full, c.Seed, pos) {
 			copy(variant, der)
 			variant[pos] = v
@@ -240,6 +244,9 @@ func checkAlteration(c altCase, r *h.Rec) error {
 			switch {
 			case !parsed:
 				nParseFail++
+			case inOuterAlg:
+				return fmt.Errorf("%s signed by %s: byte %d (inside the outer AlgorithmIdentifier) changed %02x -> %02x; the object is accepted although its inner and outer signature algorithm identifiers differ (original der=%s)",
+					altObjNames[c.Obj], keyTypeNames[c.KT], pos, der[pos], v, h.Hex(der))
 			case !verified:
 				nVerifyFail++
 			case inSigned:
@@ -288,7 +295,12 @@ func TestC15_AlterSM2(t *testing.T) {
 func TestC15_AlterEC(t *testing.T) {
 	h.Sweep(t, h.P{Name: "alter-ec"}, func(emit func(altCase)) {
 		altPlan([]int{kP256, kEd25519}, h.Scale(1, 3), 4, func(int) bool { return h.Thorough() }, emit)
-		altPlan([]int{kP384}, h.Scale(1, 2), 4, func(int) bool { return false }, emit)
+	}, checkAlteration)
+}
+
+func TestC15_AlterP384(t *testing.T) {
+	h.Sweep(t, h.P{Name: "alter-p384"}, func(emit func(altCase)) {
+		altPlan([]int{kP384}, h.Scale(1, 2), 6, func(int) bool { return false }, emit)
 	}, checkAlteration)
 }
 
